@@ -16,6 +16,7 @@ IDX = [0, 1, 2, 0xff, 0x100, 0xffff, 2**32 - 1]
 
 class C09(ScanCheck):
     pid = "C09"
+    profiles = ("release", "dev")      # dev = overflow checks and debug assertions on (index / position arithmetic)
     rule = ("recover: random wallets (plus scalars 1, l-1) x tx keys (r*G, and r*S_sub as the sender publishes for subaddresses) x positions "
             "{0,1,127,128,129,255,256,257,16383,16384,16385,2^32,2^64-1,random} x indices {0,1,2,0xff,0x100,0xffff,2^32-1}^2 (zero "
             "components included); scan_recover: every owned output of sender-built transactions (C07 scenario generator, n in "
